@@ -95,6 +95,14 @@ def expr_coq(x, it, choose):
         return "(Atom %d Eq %d)" % (k, it.str(v))
     if o == "neq":
         return "(Atom %d Neq %d)" % (k, it.str(v))
+    if o in ("in", "notin"):
+        # k IN (a, b, ..) = (k = a OR k = b OR ..);  k NOT IN (a, b, ..) = (k != a AND k != b AND ..)
+        vs = sorted(set(x.get("vs") or []))
+        terms = ["(Atom %d %s %d)" % (k, "Eq" if o == "in" else "Neq", it.str(w)) for w in vs]
+        acc = terms[-1]
+        for t2 in reversed(terms[:-1]):
+            acc = "(%s %s %s)" % ("Or" if o == "in" else "And", t2, acc)
+        return "(Paren %s)" % acc
     return "(Atom %d %s %d)" % (k, "Re" if o == "re" else "Nre", it.pat(v, choose(x)))
 
 
@@ -224,8 +232,28 @@ def case_coq(c, it_factory=Intern):
                             continue
                         sel = {id(a): b for a, b in zip(occ, bits)}
                         alts.append(expr_coq(x, it, lambda a: sel.get(id(a), 0)))
-            ops.append("CQuery %d %s %s %s %s" % (m, e, coq_list(alts), coq_list(map(str, o.get("ids") or [])),
-                                                  coq_list(map(str, o.get("ids2") or []))))
+            if o.get("only2"):
+                ops.append("CQuery2 %d %s %s %s" % (m, e, coq_list(alts), coq_list(map(str, o.get("ids2") or []))))
+            else:
+                ops.append("CQuery %d %s %s %s %s" % (m, e, coq_list(alts), coq_list(map(str, o.get("ids") or [])),
+                                                      coq_list(map(str, o.get("ids2") or []))))
+        elif k == "clist":
+            x = o.get("expr")
+            m = it.str(o["mst"])
+            if x is None:
+                e = "(Or (Atom 1 Eq 0) (Atom 1 Neq 0))"
+                it.str("host")
+            else:
+                e = expr_coq(x, it, lambda a: 0)
+            ss = []
+            for s2 in o.get("series") or []:
+                if s2.get("bad"):
+                    ss.append(series_coq("\x00unresolved " + s2["bad"], [], it))
+                else:
+                    ss.append(series_coq(s2["mst"], s2.get("tags") or [], it))
+            vals = ["(%d, %s)" % (it.str(kk), coq_list([str(it.val(v)) for v in vv])) for kk, vv in sorted((o.get("values") or {}).items())]
+            vcs = ["(%d, %d)" % (it.str(kk), n2) for kk, n2 in sorted((o.get("vcard") or {}).items())]
+            ops.append("CCond %d %s %d %s %s %s" % (m, e, o.get("card", 0), coq_list(ss), coq_list(vals), coq_list(vcs)))
         elif k == "list":
             ss = []
             for s in o.get("series") or []:
@@ -322,10 +350,12 @@ def sources_of_failure(cv, f, classes, cr_current):
         same = [b for b in dups if ops[b]["mst"] == ops[opi]["mst"] and (ops[b].get("tags") or []) == (ops[opi].get("tags") or [])]
         src.add(F_DUP if same else None)
         return src
-    if kind in ("listing-series", "listing-keys", "listing-values", "listing-cond-values", "listing-cond-keys", "cardinality"):
+    if kind in ("listing-series", "listing-keys", "listing-values", "listing-vcard"):
         src.add(F_DUP if dups else None)
         return src
-    if kind == "search-not-bruteforce":
+    if kind in ("search-not-bruteforce", "cardinality", "listing-cond-series", "listing-cond-values"):
+        if kind != "search-not-bruteforce":
+            f = dict(f, path=1)        # the conditional listings and the cardinality evaluate the predicate on the show-series path
         o = c["ops"][opi]
         x = o.get("expr")
         for a in atoms_of(x, []):
@@ -411,7 +441,7 @@ def main(ck):
                               "no axioms (Print Assumptions: closed)", "Go regexp as the oracle of regex atoms; Go regexp/syntax parser for the pattern trees",
                               "Go harness cmd/c10 (generator, brute-force oracle), python driver props/C10/run.py (interning, signatures)"]
     ck.coq_audit(["C10"])
-    ok = ck.coq_build(["C10/Proofs.vo", "C10/RegexProofs.vo", "C10/RegexSearch.vo", "C10/FlushClear.vo", "C10/Corr.vo", "C10/Props.vo", "C10/Refuted.vo"])
+    ok = ck.coq_build(["C10/Proofs.vo", "C10/RegexProofs.vo", "C10/RegexSearch.vo", "C10/FlushClear.vo", "C10/ListingCond.vo", "C10/Corr.vo", "C10/Props.vo", "C10/Refuted.vo"])
     if ok:
         ck.coq_props(["C10/Props.v", "C10/Refuted.v"])
     binp = ck.go_build("./cmd/c10", "c10")
@@ -433,6 +463,24 @@ def main(ck):
         ck.broken.append("harness c10 failed rc=%d cases=%d matrices=%d: %s" % (rc, len(cases), len(matrices), out[-800:]))
         return
     matrix = matrices[0]
+    # ---- second configuration: enable-perl-regrep = true (cases without regex atoms; the matrix is recorded, not judged)
+    if not getattr(ck, "replay", None):
+        nperl = 25 if ck.tier == "quick" else 300
+        rc, outp = ck.run([binp, str(nperl)], timeout=3000, env={"C10_PERL": "1"})
+        pcases = [json.loads(l) for l in outp.splitlines() if l.startswith('{"i"')]
+        pmx = [json.loads(l) for l in outp.splitlines() if l.startswith('{"kind":"regex"')]
+        if rc != 0 or len(pcases) != nperl or len(pmx) != 1 or not all(c.get("perl") for c in pcases):
+            ck.broken.append("harness c10 (perl-regrep configuration) failed rc=%d cases=%d: %s" % (rc, len(pcases), outp[-600:]))
+            return
+        for c in pcases:
+            c["i"] = len(cases)
+            cases.append(c)
+        rows = [(r["u"], r["a"], r["i"]) for p in pmx[0]["pats"] for r in p["rows"]]
+        ck.cov["perl_regrep_configuration"] = {
+            "cases": nperl, "note": "cases carry no regex atoms (the meaning of a regular expression in this mode is not specified); matrix recorded only",
+            "matrix_rows": len(rows), "index_equals_unanchored": sum(1 for u, a, i in rows if i == u),
+            "index_equals_anchored": sum(1 for u, a, i in rows if i == a),
+            "index_equals_neither": sum(1 for u, a, i in rows if i != a and i != u)}
 
     # ---- the pattern x value matrix: model of today's translation / of the repaired one against the real index, and the
     # shape classes of every pattern that occurs anywhere in this run
